@@ -38,6 +38,10 @@ func newMySQLUndoInsertExecutor(sqlUndoLog undo.SQLUndoLog) *mySQLUndoInsertExec
 
 // ExecuteOn execute insert undo logic
 func (m *mySQLUndoInsertExecutor) ExecuteOn(ctx context.Context, dbType types.DBType, conn *sql.Conn) error {
+	// the statement inserted no row: there is nothing to compensate
+	if m.sqlUndoLog.AfterImage == nil || len(m.sqlUndoLog.AfterImage.Rows) == 0 {
+		return nil
+	}
 
 	if err := m.BaseExecutor.ExecuteOn(ctx, dbType, conn); err != nil {
 		return err
